@@ -9,7 +9,7 @@ CaseBox gen_case(const std::string& property, const std::string& part, const std
   if (property == "C19") { cb.engine = "c19"; cb.c19 = gen_c19(part, tier, seed, idx); return cb; }
   if (property == "C14" && (part == "enum" || part == "random")) { cb.engine = "c14a"; cb.c14a = gen_c14a(part, tier, seed, idx); return cb; }
   cb.engine = "conc";
-  cb.conc = gen_conc(property, (part == "hints" || part == "cold") ? part : tier, seed, idx);
+  cb.conc = gen_conc(property, (part == "hints" || part == "cold" || part == "exit") ? part : tier, seed, idx);
   return cb;
 }
 
